@@ -19,7 +19,8 @@ POINTS = {"quick": 5, "thorough": 40}
 RULE = ("reference run = producer (1-2 sending tasks, idempotent or acks 0/1/all), group consumer (optionally a second "
         "member joining, auto-commit on/off, a getmany() blocked for up to 2 s or polling) or group-less consumer, 3 "
         "brokers, request timeout 3-5 s, session 3-4 s, rebalance 2-3 s; cluster state at the stop: healthy, one broker "
-        "(preferably the coordinator / a leader) refusing connections, black-holing connections, leaders and coordinator "
+        "(preferably the coordinator / a leader) refusing connections, black-holing connections (either dropped from the "
+        "metadata, or still listed as leader because the controller has not noticed), leaders and coordinator "
         "moving, or unreachable and restored 0.2-2 s later, the change landing 0/1/3/10/40 events before the stop; optional "
         "drops / resets / lost replies / delays on every request. Stop points: stop() at loop event k (network delivery "
         "or timer firing) for k sampled uniformly between start() and the end of the reference run (quick 5, thorough 40 "
@@ -38,6 +39,7 @@ ASSUMPTIONS = [
 REQUIRED_COUNTERS = ["histories_judged", "stops_judged", "leftover_checks", "later_api_calls_checked", "leave_group_checked",
                      "stops_producer", "stops_group_consumer", "stops_simple_consumer", "stops_cluster_healthy",
                      "stops_cluster_refuse", "stops_cluster_blackhole", "stops_cluster_failover", "stops_cluster_restored",
+                     "stops_cluster_refuse_listed", "stops_cluster_blackhole_listed",
                      "stop_points_enumerated"]
 
 
